@@ -30,13 +30,15 @@ RULE = (
 )
 ASSUMPTIONS = ["no hash collisions among the generated inputs", "digest texts are sorted as text (the order the definition's 'sorted' refers to)"]
 BUDGET = {"quick": (300, 4), "thorough": (90000, 16)}
-REQUIRED = ["rename_file", "rename_dir", "edit", "c4", "multi_format", "empty_dir", "ignored_entry", "permuted", "nested_history", "user_pattern", "path_pattern_depth>=2", "edited_file_new_format", "printed_on_failing_tree"]
+REQUIRED = ["rename_file", "rename_dir", "edit", "c4", "multi_format", "empty_dir", "ignored_entry", "permuted", "nested_history", "user_pattern", "path_pattern_depth>=2", "edited_file_new_format", "printed_on_failing_tree", "anchored_pattern_with_deeper_namesake"]
 
 
 @st.composite
 def _scn(draw):
     tree = draw(gen.trees("full", max_leaves=14, min_top=1))
     fmts = draw(gen.format_sets(3))
+    if draw(st.integers(0, 4)) == 0:
+        fmts = fmts + [fmts[0]]  # -h may name a format twice
     files = gen.tree_files(tree)
     dirs = gen.tree_dirs(tree)
     change = None
@@ -52,6 +54,15 @@ def _scn(draw):
         else:
             src = draw(st.sampled_from(files if k == "rename_file" else dirs))
             change = {"kind": k, "path": src, "new": draw(gen.names())}
+    ignore = draw(st.one_of(st.none(), st.sampled_from(_ignore_candidates(tree)))) if _ignore_candidates(tree) else None
+    if ignore and ignore.startswith("/") and dirs:
+        # the anchored name exists once more, deeper in the tree: that entry is not excluded
+        d = draw(st.sampled_from(dirs))
+        node = tree
+        for part in d.split("/"):
+            node = node[part]
+        if isinstance(node, dict) and not (d + "/").startswith(ignore[1:] + "/"):
+            node.setdefault(ignore[1:], "same name as the anchored pattern, but deeper")
     return {
         "tree": tree,
         "formats": fmts,
@@ -60,7 +71,7 @@ def _scn(draw):
         "dsstore": draw(st.sampled_from([None, None, "", "sub"])),
         "nest": draw(st.one_of(st.none(), st.sampled_from(dirs))) if dirs else None,
         # one literal ignore pattern: a root-relative path of an entry at depth >= 2, '/'-anchored top-level name, or a base name
-        "ignore": draw(st.one_of(st.none(), st.sampled_from(_ignore_candidates(tree)))) if _ignore_candidates(tree) else None,
+        "ignore": ignore,
     }
 
 
@@ -129,6 +140,13 @@ def enumerated(tier):
         "pinned": {"": ["4ccac5e6856ecf04", None], "A": ["cc195301a14023a9", None], "emptyFolderA": ["ef46db3751d8e999", None],
                    "emptyFolderC": ["cf4b060700272aa6", "949018e6a4932905"]},
     }
+
+
+    # an anchored pattern with namesakes below the root level (a file and a folder), and formats named twice
+    for pat in ("/notes.txt", "/Proxies"):
+        for fm in (["md5"], ["xxh64", "md5", "xxh64"], ["c4", "c4"]):
+            yield {"tree": {"notes.txt": "top", "Proxies": {"p.mov": "p"}, "Clips": {"notes.txt": "deeper", "Proxies": {"q.mov": "q"}, "Day1": {"notes.txt": "deepest"}}},
+                   "formats": fm, "change": {"kind": "edit", "path": "Clips/notes.txt"}, "perm": 7, "dsstore": None, "nest": None, "ignore": pat}
 
 
 def _to_bytes(tree):
@@ -262,6 +280,8 @@ def run_case(scn, ctx):
             require(res.exc is None and res.exit_code == 0, "create", "create -i failed: " + res.brief(), res)
             compare(manifest_table(w.read_history("I")[-1][2]), reft, fmts, "ignored-manifest", res, "create -i %r" % pat)
             ctx.event("user_pattern")
+            if pat.startswith("/") and any(p.split("/")[-1] == pat[1:] and "/" in p for p in gen.tree_files(scn["tree"]) + gen.tree_dirs(scn["tree"])):
+                ctx.event("anchored_pattern_with_deeper_namesake")
             if "/" in pat.strip("/"):
                 ctx.event("path_pattern_depth>=2")
 
